@@ -559,27 +559,24 @@ def _constants(ctx):
 
 
 def _pair_table(prog, f):
-    """the (P_A, beta) table `f` iterates over: a literal list/tuple of pairs, defined in the function or once at module level
-    -> (name, [(P_A, beta)], node) or None"""
+    """the (P_A, beta) table `f` iterates over: a literal list/tuple of pairs, bound to a local, written in place, or (before
+    the canonical form propagated it) a module constant -> (name or None, [(P_A, beta)], node) or None"""
     def pairs_of(v):
-        if isinstance(v, (ast.List, ast.Tuple)) and v.elts and all(isinstance(e, (ast.Tuple, ast.List)) and len(e.elts) == 2
-                                                                   for e in v.elts):
+        if isinstance(v, (ast.List, ast.Tuple)) and len(v.elts) > 1 and all(isinstance(e, (ast.Tuple, ast.List)) and len(e.elts) == 2
+                                                                             for e in v.elts):
             ps = [(const_value(e.elts[0]), const_value(e.elts[1])) for e in v.elts]
             if all(isinstance(a, (int, float)) and isinstance(b, (int, float)) for a, b in ps):
                 return ps
         return None
     cands = []
+    named = set()
     for s_ in walk_function(f.node):
         if isinstance(s_, ast.Assign) and len(s_.targets) == 1 and isinstance(s_.targets[0], ast.Name) and pairs_of(s_.value):
             cands.append((s_.targets[0].id, pairs_of(s_.value), s_))
-    used = names_in(f.node)
-    seen = {}
-    for s_ in f.module.tree.body:
-        if isinstance(s_, ast.Assign) and len(s_.targets) == 1 and isinstance(s_.targets[0], ast.Name):
-            seen.setdefault(s_.targets[0].id, []).append(s_)
-    for n_, defs in seen.items():
-        if n_ in used and len(defs) == 1 and pairs_of(defs[0].value):
-            cands.append((n_, pairs_of(defs[0].value), defs[0]))
+            named.add(id(s_.value))
+    for n_ in ast.walk(f.node):
+        if id(n_) not in named and pairs_of(n_) and not any(c_[1] == pairs_of(n_) for c_ in cands):
+            cands.append((None, pairs_of(n_), n_))
     return cands[0] if len(cands) == 1 else None
 
 
@@ -624,7 +621,9 @@ def _beta(ctx):
             tgt, it_ = n_.target, n_.iter
         elif isinstance(n_, (ast.ListComp, ast.GeneratorExp)) and len(n_.generators) == 1:
             tgt, it_ = n_.generators[0].target, n_.generators[0].iter
-        if tgt is None or not (isinstance(it_, ast.Name) and it_.id == tname and isinstance(tgt, ast.Tuple) and len(tgt.elts) == 2
+        over_table = (isinstance(it_, ast.Name) and it_.id == tname) or (tname is None and it_ is tnode) or \
+            (it_ is not None and ast.dump(it_) == ast.dump(tnode if not isinstance(tnode, ast.Assign) else tnode.value))
+        if tgt is None or not (over_table and isinstance(tgt, ast.Tuple) and len(tgt.elts) == 2
                                and all(isinstance(x_, ast.Name) for x_ in tgt.elts)):
             continue
         a_name, b_name = tgt.elts[0].id, tgt.elts[1].id
